@@ -51,6 +51,70 @@ def check(model: Model, rep: Report, tier: str):
         q11(model, rep)
     with rep.isolated():
         q12(model, rep)
+    with rep.isolated():
+        q13(model, rep)
+
+
+def q13(model: Model, rep: Report):
+    """The step generator schedules what the partition helper hands back: every element of every subgroup must survive the helper's de-duplication."""
+    rep.rule("C16.Q13", "generate_unique_subgroup_combinations: the canonical form under which a partition is de-duplicated -- and which is what the function returns -- is "
+                        "built from the subgroups by element-preserving steps only (sorted / tuple / list / frozenset and comprehensions over them): a form that keeps "
+                        "only part of a subgroup (its minimum and maximum, a slice) loses requested gates for subgroup sizes other than that part")
+    f = model.function("combinatorics", "generate_unique_subgroup_combinations")
+    PRESERVING = {"sorted", "tuple", "list", "frozenset"}
+    adds = []
+    for fn_node in [x for x in ast.walk(f.node) if isinstance(x, ast.FunctionDef)]:
+        params = [a.arg for a in fn_node.args.args]
+        single = {}
+        for st in ast.walk(fn_node):
+            if isinstance(st, (ast.Assign, ast.AnnAssign)) and st.value is not None:
+                for t in (st.targets if isinstance(st, ast.Assign) else [st.target]):
+                    if isinstance(t, ast.Name):
+                        single.setdefault(t.id, []).append(st.value)
+        for c in ast.walk(fn_node):
+            if isinstance(c, ast.Call) and isinstance(c.func, ast.Attribute) and c.func.attr == "add" and isinstance(c.func.value, ast.Name) and c.func.value.id in params \
+                    and len(c.args) == 1:
+                adds.append((fn_node, c, params, single))
+    if not adds:
+        raise AnalysisError("generate_unique_subgroup_combinations: the de-duplicating `<set parameter>.add(<canonical form>)` was not found (shape not recognised)")
+    n = 0
+    for fn_node, call, params, single in adds:
+        n += 1
+
+        def preserving(e, bases, depth=0):
+            if depth > 12:
+                return False, "too deep"
+            if isinstance(e, ast.Name):
+                if e.id in bases:
+                    return True, ""
+                if e.id in single and len(single[e.id]) == 1:
+                    return preserving(single[e.id][0], bases, depth + 1)
+                return False, f"`{e.id}` is not one of the subgroup containers"
+            if isinstance(e, ast.Call) and isinstance(e.func, ast.Name) and e.func.id in PRESERVING and len(e.args) == 1:
+                return preserving(e.args[0], bases, depth + 1)
+            if isinstance(e, (ast.ListComp, ast.GeneratorExp)) and len(e.generators) == 1 and not e.generators[0].ifs:
+                g = e.generators[0]
+                ok, why = preserving(g.iter, bases, depth + 1)
+                if not ok:
+                    return ok, why
+                if not isinstance(g.target, ast.Name):
+                    return False, "the subgroup is unpacked"
+                return preserving(e.elt, set(bases) | {g.target.id}, depth + 1)
+            if isinstance(e, ast.Call) and isinstance(e.func, ast.Name) and e.func.id == "map" and len(e.args) == 2 and isinstance(e.args[0], ast.Name) and e.args[0].id in PRESERVING:
+                return preserving(e.args[1], bases, depth + 1)
+            lossy = [x for x in ast.walk(e) if (isinstance(x, ast.Call) and isinstance(x.func, ast.Name) and x.func.id in ("min", "max", "sum", "len", "next", "hash"))
+                     or isinstance(x, ast.Subscript)]
+            if not lossy:
+                raise AnalysisError(f"generate_unique_subgroup_combinations: canonical form `{ast.unparse(e)[:100]}` not read (neither element-preserving steps nor a known lossy one)")
+            return False, f"`{ast.unparse(e)[:80]}` keeps only part of its argument ({ast.unparse(lossy[0])[:40]})"
+        # the containers of subgroups: the other parameters of the recursive helper (the accumulated subgroups)
+        bases = {p_ for p_ in params if p_ != call.func.value.id}
+        ok, why = preserving(call.args[0], bases)
+        rep.check(ok, "C16.Q13", "generate_unique_subgroup_combinations[canonical form]", f"{f.module.relpath}:{call.lineno}", found=ast.unparse(call.args[0])[:160] if ok else why,
+                  required="sorted / tuple / list forms of ALL elements of every subgroup",
+                  what="the partitions handed to the step generator are not the subgroups that were formed: " + why + " -- for subgroup sizes other than the kept part, requested "
+                       "gates are missing from the emitted steps (or a gate appears twice)", detail="canonical")
+    rep.floor("de-duplication sites of the partition helper", n, 1)
 
 
 def q12(model: Model, rep: Report):
